@@ -207,6 +207,35 @@ def explore(chk):
         if got != want:
             chk.property_failure({"set": desc, "options": opts, "reused_writer": got, "fresh_writer": want, "document_index_on_this_writer": k},
                                  "webvtt: cue settings written by a reused writer object differ from a fresh writer's (layout carried over from an earlier document)")
+    # ---------------- one caption set written twice: what a writer makes of the layouts for its own document stays in that document
+    tsub = chk.sub("same_set_two_writers")
+    for k_ in range(24 if chk.tier == "quick" else 600):
+        ld = {"origin": ["%d%%" % tsub.choice([5, 10, 40]), "%d%%" % tsub.choice([10, 20, 60])]}
+        if tsub.random() < 0.4:
+            ld["extent"] = ["%d%%" % tsub.choice([60, 95]), "%d%%" % tsub.choice([30, 90])]
+        if tsub.random() < 0.5:
+            ld["padding"] = ["1%", "2%", "3%", "4%"]
+        ld["align"] = [tsub.choice(["left", "center", "right"]), None]
+        level = ["caption", "node", "lang"][k_ % 3]
+        nodes_ = [["S", True, {"italics": True}] + ([ld] if level == "node" else []), ["T", "hello"] + ([ld] if level == "node" else []),
+                  ["S", False, {"italics": True}] + ([ld] if level == "node" else [])]
+        desc_ = {"langs": [{"lang": "en-US", "layout": ld if level == "lang" else None,
+                            "caps": [{"start": 1000000, "end": 2000000, "nodes": nodes_, "layout": ld if level == "caption" else None}]}]}
+        first = tsub.choice([("dfxp", {"relativize": False}), ("dfxp", {}), ("webvtt", {}), ("dfxp", {"relativize": False, "video_width": 640, "video_height": 360})])
+        second = tsub.choice([("webvtt", {"fit_to_screen": False}), ("dfxp", {"fit_to_screen": False}), ("webvtt", {"fit_to_screen": False, "relativize": False})])
+        WR_ = {"dfxp": pycaption.DFXPWriter, "webvtt": pycaption.WebVTTWriter}
+        case = {"layout": ld, "level": level, "first_write": list(first), "second_write": list(second)}
+        chk.case(key=("two_writers", json.dumps(case, sort_keys=True)), nontrivial=True); chk.count("same_set_two_writers")
+        try:
+            want = WR_[second[0]](**second[1]).write(setbuild.build(desc_))
+            cs_ = setbuild.build(desc_)
+            WR_[first[0]](**first[1]).write(cs_)
+            got = WR_[second[0]](**second[1]).write(cs_)
+        except Exception as e:
+            chk.property_failure(dict(case, error=repr(e)[:300]), "writing a percentage layout raised"); continue
+        if got != want:
+            chk.property_failure(dict(case, second_output=got[:1500], fresh_set_output=want[:1500]),
+                                 "positioning: what a writer is given after another writer wrote the same caption set differs from a fresh set (layouts completed / clipped for one document leak into the next)")
     # ---------------- DFXP: one region's attributes, written and read (model correspondence + the property's own wording)
     c12_region.explore(chk, pycaption)
     # ---------------- DFXP round trip: effective layout per visible character (1-3 languages, each with its own layout or none)
